@@ -11,8 +11,9 @@ from .. import gen_valid, ser, ser_valid, valid_common as vc
 PROP = "C05"
 THEOREMS = [
     "C05_validate_total", "C05_validate_total_partial", "C05_validate_never_crashes", "C05_close_fuel_sufficient",
-    "C05_merge_unambiguous_pairwise", "C05_merge_unambiguous_within", "C05_merge_unambiguous_named", "C05_faithful_locations", "C05_lookups_agree",
+    "C05_merge_unambiguous_pairwise", "C05_merge_unambiguous_within", "C05_merge_unambiguous_named", "C05_faithful_locations", "C05_lookups_agree", "C05_lookups_agree_rules",
     "C05_merge_unambiguous_named_valid", "C05_merge_memo_sound",
+    "C05_merge_unambiguous_deep", "C05_merge_unambiguous_deep_valid", "C05_conflict_free_unfold", "C05_conflict_free_find",
     "C05_shape_static", "C05_progress_static",
     "C05_runtime_reach_static", "C05_progress_runtime", "C05_shape_runtime", "C05_implements_ok_decidable",
 ]
